@@ -58,6 +58,9 @@ struct Elem {
 }
 
 fn scan(text: &str) -> Option<Vec<Elem>> {
+    if nesting_depth(text) > 1500 {
+        return None; // roxmltree itself would overflow this process's stack
+    }
     let doc = roxmltree::Document::parse(text).ok()?;
     let mut out: Vec<Elem> = vec![];
     let mut index = std::collections::HashMap::new();
@@ -343,6 +346,32 @@ fn edge_probes() -> Vec<(String, FileSet)> {
     v.push(("edge/bom-only".to_string(), FileSet::single("a.xsd", "\u{FEFF}")));
     // start file that was never registered
     v.push(("edge/start-file-not-registered".to_string(), FileSet { start: "missing.wsdl".into(), files: vec![("a.xsd".into(), "<xs:schema xmlns:xs=\"http://www.w3.org/2001/XMLSchema\"/>".into())] }));
+    // doubled forward references: every element refers twice to the next, declared later
+    {
+        let n = 40;
+        let mut t = String::from("<xs:schema xmlns:xs=\"http://www.w3.org/2001/XMLSchema\" xmlns:t=\"urn:e\" targetNamespace=\"urn:e\">");
+        for i in 0..n {
+            t += &format!("<xs:element name=\"E{i}\"><xs:complexType><xs:sequence><xs:element ref=\"t:E{0}\"/><xs:element ref=\"t:E{0}\" minOccurs=\"0\"/></xs:sequence></xs:complexType></xs:element>", i + 1);
+        }
+        t += &format!("<xs:element name=\"E{n}\" type=\"xs:string\"/></xs:schema>");
+        v.push(("edge/40-doubled-forward-references".to_string(), FileSet::single("fwd.xsd", &t)));
+        let mut t = String::from("<xs:schema xmlns:xs=\"http://www.w3.org/2001/XMLSchema\" xmlns:t=\"urn:e\" targetNamespace=\"urn:e\">");
+        for i in 0..n {
+            t += &format!("<xs:complexType name=\"T{i}\"><xs:complexContent><xs:extension base=\"t:T{0}\"><xs:sequence><xs:element name=\"a{i}\" type=\"t:T{0}\"/><xs:element name=\"b{i}\" type=\"t:T{0}\"/></xs:sequence></xs:extension></xs:complexContent></xs:complexType>", i + 1);
+        }
+        t += &format!("<xs:complexType name=\"T{n}\"><xs:sequence/></xs:complexType></xs:schema>");
+        v.push(("edge/40-forward-extension-with-typed-members".to_string(), FileSet::single("fwd2.xsd", &t)));
+    }
+    // very deep element nesting (any root)
+    for n in [20_000usize, 200_000] {
+        v.push((format!("edge/{n}-nested-elements"), FileSet::single("deepa.xsd", &format!("{}{}", "<a>".repeat(n), "</a>".repeat(n)))));
+    }
+    let deep20k = format!(
+        "<xs:schema xmlns:xs=\"http://www.w3.org/2001/XMLSchema\" targetNamespace=\"urn:d\"><xs:complexType name=\"D\">{}<xs:element name=\"x\" type=\"xs:string\"/>{}</xs:complexType></xs:schema>",
+        "<xs:sequence>".repeat(20_000),
+        "</xs:sequence>".repeat(20_000)
+    );
+    v.push(("edge/20000-nested-sequences".to_string(), FileSet::single("deep20k.xsd", &deep20k)));
     // deep nesting
     let deep = format!(
         "<xs:schema xmlns:xs=\"http://www.w3.org/2001/XMLSchema\" targetNamespace=\"urn:d\"><xs:complexType name=\"D\">{}<xs:element name=\"x\" type=\"xs:string\"/>{}</xs:complexType></xs:schema>",
@@ -360,7 +389,44 @@ fn edge_probes() -> Vec<(String, FileSet)> {
 
 fn reached_reader(fs: &FileSet) -> bool {
     let Some(start) = fs.files.iter().find(|f| f.0 == fs.start) else { return false };
+    if nesting_depth(&start.1) > 1500 {
+        return start.1.contains("schema") || start.1.contains("definitions");
+    }
     roxmltree::Document::parse(&start.1).is_ok_and(|d| matches!(d.root_element().tag_name().name(), "schema" | "definitions"))
+}
+
+/// Rough element nesting depth of a text (counts `<name` against `</` and `/>`).
+pub fn nesting_depth(text: &str) -> usize {
+    let b = text.as_bytes();
+    let (mut depth, mut max) = (0usize, 0usize);
+    let mut i = 0;
+    while i + 1 < b.len() {
+        if b[i] == b'<' {
+            if b[i + 1] == b'/' {
+                depth = depth.saturating_sub(1);
+            } else if b[i + 1].is_ascii_alphabetic() || b[i + 1] == b'_' {
+                depth += 1;
+                max = max.max(depth);
+            }
+        } else if b[i] == b'/' && b[i + 1] == b'>' {
+            depth = depth.saturating_sub(1);
+        }
+        i += 1;
+    }
+    max
+}
+
+/// Like `failure_of`, but a stack overflow on an input nested thousands of elements deep is
+/// told apart from every other stack overflow (roxmltree's parser is recursive).
+fn failure_of_input(fs: &FileSet, out: &Outcome) -> Option<(String, String)> {
+    let (sig, detail) = failure_of(out)?;
+    if sig == "killed:stack-overflow" {
+        let d = fs.files.iter().map(|f| nesting_depth(&f.1)).max().unwrap_or(0);
+        if d >= 5000 {
+            return Some((format!("{sig}:element-nesting>=5000"), format!("nesting depth {d}; {detail}")));
+        }
+    }
+    Some((sig, detail))
 }
 
 fn failure_of(out: &Outcome) -> Option<(String, String)> {
@@ -431,7 +497,7 @@ pub fn run(tier: Tier) -> i32 {
         if i < 3 {
             ev.sample(json!({"base": label, "mutations": kinds, "outcome": out.class(), "start_file_head": sets[i].files.first().map(|f| f.1.chars().take(200).collect::<String>())}));
         }
-        if let Some((sig, detail)) = failure_of(out) {
+        if let Some((sig, detail)) = failure_of_input(&sets[i], out) {
             fail_idx.push((i, format!("C13 {sig}"), detail));
         }
     }
@@ -454,7 +520,7 @@ pub fn run(tier: Tier) -> i32 {
                         return false;
                     }
                     let (f, _) = apply(base, c);
-                    failure_of(&worker::run_single(&f)).is_some_and(|(s, _)| format!("C13 {s}") == want)
+                    failure_of_input(&f, &worker::run_single(&f)).is_some_and(|(s, _)| format!("C13 {s}") == want)
                 },
                 40,
             );
@@ -469,7 +535,7 @@ pub fn run(tier: Tier) -> i32 {
 pub fn replay(case: &serde_json::Value) -> i32 {
     let fs: FileSet = serde_json::from_value(case["fileset"].clone()).expect("C13 replay needs the file set");
     let out = worker::run_single(&fs);
-    let f = failure_of(&out);
+    let f = failure_of_input(&fs, &out);
     println!("outcome {} -> {f:?}", out.class());
     if f.is_some() {
         println!("VIOLATION property=C13 replay=(this file)");
